@@ -24,11 +24,15 @@ elif kind == 'span-args':
     a = [[unkey(k) for k in row] for row in c['a']]
     bad = c13.args_check(a, [unkey(k) for k in c['lb']], [unkey(k) for k in c['ub']], c['dtype'])
     res.update({'oracle': bad, 'recorded': c['oracle'], 'fails': bool(bad)})
+elif kind == 'history':
+    c = dict(rp['case'])
+    bad = c13.history_check(c)
+    res.update({'oracle': bad, 'recorded': rp['case'].get('oracle'), 'fails': bool(bad)})
 elif kind == 'space':
     c = rp['case']
     raw = [[[unkey(k) for k in row] for row in p] for p in c['raw']]
     msg = c13.space_check(c['n'], c['d'], [unkey(k) for k in c['lb']], [unkey(k) for k in c['ub']], c['na'], c['draw'], raw,
-                          hlib.rng('replay'))
+                          hlib.rng('replay'), c.get('int', False))
     res.update({'oracle': msg, 'recorded': c['oracle'], 'fails': bool(msg)})
 elif kind == 'run':
     c = rp['case']
